@@ -268,7 +268,8 @@ def gen_case(streams, tier):
         "dev_seed": w.randint(0, 2**31 - 1),
         # how "the same seed" is handed to the devices of one run: an integer, a list of integers, or ONE
         # numpy SeedSequence object that every device of the run is created from
-        "seed_kind": w.choice(["int", "int", "int", "int_list", "seed_sequence_shared", "seed_sequence_shared"]),
+        "seed_kind": w.choice(["int", "int", "int", "int_list", "seed_sequence_shared", "seed_sequence_shared",
+                               "zero", "zero_np", "zero_list"]),
         "backend": backend,
         "max_workers": mw,
         "entry": entry,
@@ -427,6 +428,12 @@ def _seed_of(case):
     import numpy as np
 
     kind = case.get("seed_kind", "int")
+    if kind == "zero":  # a perfectly good seed that happens to be falsy
+        return 0
+    if kind == "zero_np":
+        return np.int64(0)
+    if kind == "zero_list":
+        return [0]
     if kind == "int_list":
         return [case["dev_seed"] % 1000, case["dev_seed"] // 1000]
     if kind == "seed_sequence_shared":
